@@ -181,16 +181,39 @@ def hs_case(rng, mode):
 def pton_cases(rng, mode, n):
     out = [["pton %s %s" % (mode, vf.hexs(s))] for s in IP_LITS]
     pal = [b"0", b"1", b"2", b"5", b"9", b".", b":", b"a", b"F", b"g", b" ", b"f"]
+    oct_ok = [b"0", b"1", b"9", b"10", b"99", b"100", b"199", b"249", b"255"]
+    oct_any = oct_ok + [b"00", b"01", b"001", b"256", b"260", b"300", b"", b"1a", b"099", b"0255", b"1000"]
+    grp_ok = [b"0", b"1", b"f", b"F", b"10", b"aB", b"ffff", b"FFFF", b"0001", b"abcd", b"1234"]
+    grp_any = grp_ok + [b"", b"10000", b"00001", b"g", b"fffff", b"-1"]
     for _ in range(n):
-        r = rng.below(10)
-        if r < 3:
-            s = b".".join(rng.choice([b"0", b"1", b"00", b"01", b"255", b"256", b"25", b"", b"1a", b"099"])
-                          for _ in range(rng.choice([3, 4, 4, 4, 5])))
-        elif r < 7:
-            k = rng.choice([2, 3, 6, 7, 8, 8, 9])
-            groups = [rng.choice([b"0", b"1", b"", b"ffff", b"FFFF", b"10000", b"aB", b"0001", b"g", b"00001"])
-                      for _ in range(k)]
+        r = rng.below(12)
+        if r < 2:                                   # well-formed dotted quad
+            s = b".".join(rng.choice(oct_ok) for _ in range(4))
+        elif r < 4:                                 # dotted, maybe malformed
+            s = b".".join(rng.choice(oct_any) for _ in range(rng.choice([3, 4, 4, 4, 5])))
+        elif r < 6:                                 # well-formed IPv6, optional "::" and v4 tail
+            k = 8
+            tail = b""
+            if rng.chance(1, 3):
+                k = 6
+                tail = b".".join(rng.choice(oct_ok if rng.chance(3, 4) else oct_any) for _ in range(4))
+            groups = [rng.choice(grp_ok) for _ in range(k)]
+            lead = trail = False
+            if rng.chance(2, 3):                    # compress a run of groups into "::"
+                a = rng.below(k)
+                b = a + 1 + rng.below(k - a)
+                groups = groups[:a] + [b""] + groups[b:]
+                lead, trail = (a == 0), (b == k)
+            if tail:
+                groups.append(tail)
+            elif trail:
+                groups.append(b"")
+            if lead:
+                groups.insert(0, b"")
             s = b":".join(groups)
+        elif r < 9:                                 # IPv6-ish, maybe malformed
+            k = rng.choice([2, 3, 6, 7, 8, 8, 9])
+            s = b":".join(rng.choice(grp_any) for _ in range(k))
             if rng.chance(1, 4):
                 s += b":" + rng.choice([b"1.2.3.4", b"01.2.3.4", b"1.2.3", b"255.0.0.1"])
         else:
@@ -316,7 +339,8 @@ def xpairs(ck, hcmd, dcmd, mode, kind, alpha, lc, ln, lo, hi, pieces=32, workers
 
 
 def nontrivial(case):
-    return True
+    """a case is non-trivial when the certificate carries at least one name"""
+    return len(case[0].split()) > 3 or case[0].startswith("pton")
 
 
 def run(ck):
@@ -336,7 +360,8 @@ def run(ck):
                       "{a,B,c,*,.,-,0,1,:,NUL,' '} to length 14 and IPv4/IPv6 literals in many spellings; plus the "
                       "exhaustive set of (cert string, name) pairs over {a,b,*,.,-} (range-hash, as dNSName and as "
                       "CN); every case is run in mode g (platform inet_pton) and mode c (usual/socket_pton.c); "
-                      "distinct = distinct op lines")
+                      "distinct_nontrivial = distinct op lines whose certificate carries at least one name (the pairs of "
+                      "the exhaustive domains are counted in evaluations only)")
     ck.assumptions += ["C locale (strcasecmp folds A-Z only)", "requested name is a C string (no NUL)",
                        "platform inet_pton = glibc >= 2.26 semantics when HAVE_INET_PTON is defined",
                        "negative ASN1 lengths do not occur", "subject CN is read with X509_NAME_get_text_by_NID (first CN)"]
@@ -359,8 +384,8 @@ def run(ck):
         n *= 4
     cases_g = [rand_case(rng, "cert", "g") for _ in range(n)]
     cases_c = [[c[0].replace("cert g ", "cert c ", 1)] for c in cases_g[: n // 2]]
-    nfail += par_compare(ck, hs["g"], dcmd, cases_g, "random-g")
-    nfail += par_compare(ck, hs["c"], dcmd, cases_c, "random-c")
+    nfail += par_compare(ck, hs["g"], dcmd, cases_g, "random-g", nontrivial=nontrivial)
+    nfail += par_compare(ck, hs["c"], dcmd, cases_c, "random-c", nontrivial=nontrivial)
     for c in cases_g[:3]:
         ck.sample(c[0])
 
@@ -373,7 +398,7 @@ def run(ck):
     for kind, alpha, lc, ln in plan:
         total = xcount(len(alpha), lc) * xcount(len(alpha), ln)
         nfail += xpairs(ck, hs[plat], dcmd, plat, kind, alpha, lc, ln, 0, total)
-        ck.cov.setdefault("exhaustive", []).append(
+        ck.cov.setdefault("exhaustive_domains", []).append(
             "%s alphabet %r cert<=%d name<=%d: %d pairs" % (kind, alpha.decode(), lc, ln, total))
     ck.sample("xpairs %s %s %s %d %d 0 %d" % (plat, plan[0][0], plan[0][1].hex(), plan[0][2], plan[0][3],
                                                xcount(len(plan[0][1]), plan[0][2]) * xcount(len(plan[0][1]), plan[0][3])))
@@ -381,9 +406,12 @@ def run(ck):
     # end-to-end: real handshake over a socketpair (self-signed, verify_cert off, verify_name on)
     nh = ck.scale(400, 6000)
     hcases = [hs_case(rng, plat) for _ in range(nh)]
-    nfail += par_compare(ck, hs[plat], dcmd, hcases, "handshake", chunk=100)
+    nfail += par_compare(ck, hs[plat], dcmd, hcases, "handshake", nontrivial=nontrivial, chunk=100)
     ck.sample(hcases[0][0])
     ck.cov["traces_validated_against_impl"] = ck.cov["evaluations"]
+    ck.cov["exhaustive"] = False
+    if not ck.quick():
+        ck.leanchecker(PROP_MODULES)
     return nfail
 
 
